@@ -647,7 +647,7 @@ package caldav
 //@ func caldav.(*Client).FindCalendarHomeSet(c, ctx, principal) (p, err)
 //@   requires R1: cclientOKCal(c)
 //@   allocates
-//@   assigns ghost:data, ghost:doCalls, ghost:lastReq, ghost:sentCount, ghost:sentMethod, ghost:sentPath, ghost:sentBody, ghost:hv
+//@   assigns ghost:data, ghost:doCalls, ghost:lastReq, ghost:sentCount, ghost:sentMethod, ghost:sentPath, ghost:sentBody, ghost:hv, ghost:encLast, ghost:nrCalls, ghost:nrMethod, ghost:nrURL, ghost:nrReq
 //@   ensures E1: doCalls == old(doCalls) ==> p == "" && err != nil
 //@   ensures E2: doCalls == old(doCalls) + 1 && (lastErr(c.ic) != nil || lastStatus(c.ic) != 207) ==> p == "" && err != nil && (lastErr(c.ic) == nil && lastStatus(c.ic) / 100 != 2 ==> httpCode(err) == lastStatus(c.ic))
 //@   ensures E3: doCalls == old(doCalls) || doCalls == old(doCalls) + 1
@@ -669,7 +669,7 @@ package caldav
 //@ func caldav.(*Client).FindCalendars(c, ctx, calendarHomeSet) (l, err)
 //@   requires R1: cclientOKCal(c)
 //@   allocates
-//@   assigns ghost:data, ghost:doCalls, ghost:lastReq, ghost:sentCount, ghost:sentMethod, ghost:sentPath, ghost:sentBody, ghost:hv
+//@   assigns ghost:data, ghost:doCalls, ghost:lastReq, ghost:sentCount, ghost:sentMethod, ghost:sentPath, ghost:sentBody, ghost:hv, ghost:encLast, ghost:nrCalls, ghost:nrMethod, ghost:nrURL, ghost:nrReq
 //@   ensures E1: doCalls == old(doCalls) ==> l == nil && err != nil
 //@   ensures E2: doCalls == old(doCalls) + 1 && (lastErr(c.ic) != nil || lastStatus(c.ic) != 207) ==> l == nil && err != nil && (lastErr(c.ic) == nil && lastStatus(c.ic) / 100 != 2 ==> httpCode(err) == lastStatus(c.ic))
 //@   ensures E3: doCalls == old(doCalls) || doCalls == old(doCalls) + 1
